@@ -158,10 +158,10 @@ func forEachHybrid(c *Ctx, cb func(tok, label, role, layout string)) {
 	}
 	for _, bs := range bases {
 		k1, payloadB := bs.k1, bs.body
-		for _, k2 := range typed {
+		for _, k2 := range append(append([]string{}, typed...), "") { // "": no kind inside the nats section at all
 			for _, ver := range []int{-1, 1, 2} {
 				for _, role := range roles {
-					if k1 == k2 && !strings.ContainsRune(allowedRoles[k1], rune(role)) && role != 'U' {
+					if (k1 == k2 || k2 == "") && !strings.ContainsRune(allowedRoles[k1], rune(role)) && role != 'U' {
 						continue // same-kind hybrids: permitted issuers (and one forbidden role) are enough
 					}
 					for _, layout := range []string{"v2", "v1"} {
@@ -174,7 +174,11 @@ func forEachHybrid(c *Ctx, cb func(tok, label, role, layout string)) {
 								nats = map[string]interface{}{}
 								m["nats"] = nats
 							}
-							nats["type"] = k2
+							if k2 == "" {
+								delete(nats, "type")
+							} else {
+								nats["type"] = k2
+							}
 							if ver < 0 {
 								delete(nats, "version")
 							} else {
